@@ -233,6 +233,7 @@ struct GenCfg {
   bool repeats = false;         // C15 repeat calls
   bool small_pools = false;     // C15 colliding parameter pools
   bool q120 = false;
+  bool large_world = false;     // C12: a few worlds use only large dimensions (4096..16384), few tasks, homogeneous work
   bool edge_products = false;   // some products sit at the edge of the 52-bit budget and are compared within the documented error bound
   bool kernel_pairs = false;    // C07 ride-along: exported ref/avx2 kernel twins on identical operands
   int ntasks = 0;               // 0 = single sequence
